@@ -279,22 +279,33 @@ type c13state struct {
 	present bool
 	seq     int64
 	val     string
+	expired bool // present in the store but older than the expiry: not served, deleted by the next get
 }
 
+// c13init is the register's state when the concurrent phase starts (set per run;
+// one run at a time per process).
+var c13init c13state
+
 var c13model = porcupine.Model{
-	Init: func() any { return c13state{} },
+	Init: func() any { return c13init },
 	Step: func(state, input, output any) (bool, any) {
 		st, in, out := state.(c13state), input.(c13in), output.(c13out)
 		if !in.put {
 			if out.code != 0 {
 				return true, st // failed read: no information
 			}
+			if st.expired {
+				return !out.present, c13state{}
+			}
 			return out.present == st.present && (!st.present || (out.seq == st.seq && out.val == st.val)), st
 		}
 		if out.code == -1 {
 			return true, st // store failure: nothing written (the failing store fails before writing)
 		}
-		ns := c13state{true, in.seq, in.val}
+		ns := c13state{true, in.seq, in.val, false}
+		if st.expired && out.code == 0 {
+			return true, ns // an expired item may or may not still take part in the comparison
+		}
 		if !st.present {
 			if out.code == 0 {
 				return true, ns
@@ -371,6 +382,19 @@ func c13conc(r *Run, storeErrors bool) {
 		}})
 	} else {
 		w = bep44.NewWrapper(st, exp)
+	}
+	c13init = c13state{}
+	if !useServer && ch.Chance(1, 3, "expired.start") {
+		// start from an item that has just passed the expiry and is still in the store
+		it := &bep44.Item{V: "old", K: k32, Salt: salt, Seq: 2}
+		copy(it.Sig[:], refSign(priv, salt, 2, benc.Encode("old")))
+		if err := w.Put(it); err != nil {
+			r.HarnessErr = "pre-store: " + err.Error()
+			return
+		}
+		r.Advance(exp + time.Duration(ch.Range(0, 1, "expired.edge"))*time.Nanosecond)
+		c13init = c13state{true, 2, "old", true}
+		r.Probe("start-from-expired-item")
 	}
 	nops := ch.Range(2, 10, "nops")
 	var stamp atomic.Int64
@@ -533,15 +557,19 @@ func c13conc(r *Run, storeErrors bool) {
 	lastSeq, haveLast, checked := int64(0), false, 0
 	r.OnQuiescent = func() {
 		st.mu.Lock()
-		puts := st.puts[checked:]
-		checked = len(st.puts)
+		ops := st.ops[checked:]
+		checked = len(st.ops)
 		st.mu.Unlock()
-		for _, it := range puts {
-			if haveLast && it.Seq < lastSeq {
-				r.Violate("stored-seq-decreased", "the store received a write with seq=%d after one with seq=%d for the same target (concurrent puts)", it.Seq, lastSeq)
+		for _, sq := range ops {
+			if sq == delMark {
+				haveLast = false // the (expired) item was deleted: a new history starts
+				continue
+			}
+			if haveLast && sq < lastSeq {
+				r.Violate("stored-seq-decreased", "the store received a write with seq=%d after one with seq=%d for the same target (concurrent puts)", sq, lastSeq)
 				return
 			}
-			lastSeq, haveLast = it.Seq, true
+			lastSeq, haveLast = sq, true
 		}
 	}
 	r.Pump(func() bool {
@@ -561,6 +589,23 @@ func c13conc(r *Run, storeErrors bool) {
 	}
 	if n := failsFired.Load(); n > 0 {
 		r.FaultsHit["store-error"] += int(n)
+	}
+	// afterwards a plain read: an accepted put is what later gets return
+	{
+		fin := &rec{in: c13in{}, client: 99}
+		fin.call = stamp.Add(1)
+		it, err := bep44.NewWrapper(st, exp).Get(target)
+		switch {
+		case err == nil:
+			fin.out = c13out{present: true, seq: it.Seq, val: fmt.Sprint(it.V)}
+		case errors.Is(err, bep44.ErrItemNotFound):
+			fin.out = c13out{}
+		default:
+			fin.out = c13out{code: -1}
+		}
+		fin.rt = stamp.Add(1)
+		fin.done = true
+		recs = append(recs, fin)
 	}
 	var ops []porcupine.Operation
 	overlap := false
